@@ -5,8 +5,16 @@
 
 static const uint8_t BIASED[] = {0x00, 0x7f, 0x80, 0xff, 0x81, 0x82, 0x84, 0x1f, 0x3f, 0x20, 0x30, 0xa0, '<', '>', '/', '&', ';'};
 
-const char *TRANSPORT_FAULTS[] = {"bitflip", "overwrite", "truncate", "drop", "dup", "swap", "insert", "lenblow", "splice", "garbage"};
-const int N_TRANSPORT_FAULTS = 10;
+const char *TRANSPORT_FAULTS[] = {"bitflip", "overwrite", "truncate", "drop", "dup", "swap", "insert", "lenblow", "splice", "garbage", "token"};
+const int N_TRANSPORT_FAULTS = 11;
+
+// syntax tokens a damaged or hostile stream may contain at any position: lexical corner cases of XML text and of TLV / length octets
+static const char *const XML_TOKENS[] = {"&#;", "&#0;", "&#x0;", "&#x;", "&#xFFFFFFFFF;", "&#4294967296;", "&#1114112;", "&#xD800;", "&nosuch;", "&", "&amp", "&lt;", "<", "</", "</>", "<>", "<!--", "-->",
+    "<!-- -- -->", "<![CDATA[", "]]>", "<?x y?>", "<x/>", "<nul/>", "<bel/>", "<true/>", "<false/>", "<NULL/>", "<a b=\"c\">", "\xEF\xBB\xBF", "\xC0\x80", "\xED\xA0\x80", "\xF4\x90\x80\x80", "\xFF",
+    "FE", "ff:fe", "1.", ".5", "1e", "-", "+", "<PLUS-INFINITY/>", "<MINUS-INFINITY/>", "<NOT-A-NUMBER/>", "-0", "1.2.840.113549", "0.40", "2.999999999999999999999", "  \n\t", "0x1F", "'0101'B"};
+struct BinTok { const char *p; size_t n; };
+#define BT(s) {s, sizeof(s) - 1}
+static const BinTok BIN_TOKENS[] = {BT("\x00\x00"), BT("\x80"), BT("\x1f\xff\xff\xff\xff\x7f"), BT("\x9f\x81\x00"), BT("\xbf\x1f"), BT("\x24\x80"), BT("\x23\x80\x03\x01\x08"), BT("\x03\x01\x08"), BT("\x03\x00"), BT("\x02\x00"), BT("\x0a\x00"), BT("\x01\x00"), BT("\x05\x01\x00"), BT("\x09\x01\x40"), BT("\x09\x01\x41"), BT("\x09\x01\x42"), BT("\x09\x03\x03\x31\x2c"), BT("\x09\x02\x83\x00"), BT("\x09\x02\x80\x80"), BT("\x06\x01\x80"), BT("\x06\x02\x2a\x86"), BT("\x0d\x01\xff"), BT("\x30\x80"), BT("\x31\x80"), BT("\xa0\x80"), BT("\x04\x81\x00"), BT("\x04\x84\x00\x00\x00\x01\x41"), BT("\x81\x01"), BT("\x88\x7f\xff\xff\xff\xff\xff\xff\xff"), BT("\xc1"), BT("\xc4"), BT("\xbf\xff"), BT("\x40"), BT("\x3f")};
 
 static void seg(Rng &r, size_t n, size_t &a, size_t &len) {
     a = n ? (size_t)r.below(n) : 0;
@@ -39,6 +47,15 @@ void transport_damage(Bytes &b, Rng &r, const Bytes *other, std::vector<std::str
                   else { size_t cut = (size_t)r.below(n + 1); size_t oc = (size_t)r.below(other->size()); b.resize(cut); b.insert(b.end(), other->begin() + oc, other->end()); break; } }
                 /* fall through */
         case 9: { size_t k = 1 + (size_t)r.below(24); b.clear(); for(size_t i = 0; i < k; i++) b.push_back((uint8_t)r.below(256)); break; }
+        case 10: { // a syntax token at a seeded position (inserted, or written over what is there)
+                  bool xml = n && (b[0] == '<' || b[0] == ' ' || b[0] == '\n');
+                  const char *t; size_t tl;
+                  if(xml) { t = XML_TOKENS[r.below(sizeof XML_TOKENS / sizeof *XML_TOKENS)]; tl = strlen(t); }
+                  else { const BinTok &bt = BIN_TOKENS[r.below(sizeof BIN_TOKENS / sizeof *BIN_TOKENS)]; t = bt.p; tl = bt.n; }
+                  a = (size_t)r.below(n + 1);
+                  if(r.chance(2, 3)) b.insert(b.begin() + a, (const uint8_t *)t, (const uint8_t *)t + tl);
+                  else for(size_t i = 0; i < tl; i++) { if(a + i < b.size()) b[a + i] = (uint8_t)t[i]; else b.push_back((uint8_t)t[i]); }
+                  break; }
         }
         applied.push_back(TRANSPORT_FAULTS[kind]);
     }
